@@ -284,7 +284,7 @@ JOBS['C05'] = [
 
 # ---------------------------------------------------------------- C19
 META['C19'] = {
-    'bounds': {'quick': 'all sequences of 2 commands from a 40-entry menu (j k G H L ^E ^Y ^D ^U ^F ^B z<CR> z. z- dd x o O p P J u ^R :d :1,3d :$ $ 0 3G 2dd yyP 5j w A :2 ^E^E Hdk Hck Ld2j Hjd2k) on buffers of 3 and 12 lines (and 12 lines with one long line) in a 6x20 window, and of 1 command on an empty buffer and in a 4x10 window; highlighting off',
+    'bounds': {'quick': 'all sequences of 2 commands from a 43-entry menu (j k G H L ^E ^Y ^D ^U ^F ^B z<CR> z. z- dd x o O p P J u ^R :d :1,3d :$ $ 0 3G 2dd yyP 5j w A :2 ^E^E Hdk Hck Ld2j Hjd2k, multi-line inserts whose first line runs past the right edge) on buffers of 3 and 12 lines (and 12 lines with one long line) in a 6x20 window, and of 1 command on an empty buffer and in a 4x10 window; highlighting off',
                'thorough': 'sequences of 3 commands on the 12-line buffers'},
     'outside': 'order/RTL rendering on screen; highlighting on (the emulator ignores attributes; only A==B is meaningful there); multiple windows; lines with tabs or wide characters (the cell oracle is ASCII)',
     'assumptions': ['the terminal is the VT100 subset of harness/vt.h (CUP, CUF/CUB, EL, IL, DL, DECSTBM, SGR ignored, CR, LF)', 'the editor state is observed between two commands through the environment hook that fires when the next key is read'],
